@@ -105,7 +105,7 @@ func (e *Enc) strLit(s string, t types.Type) Val {
 		for i := 0; i < len(s); i++ {
 			fs = append(fs, eq(sel(sel(m, ref), c64(int64(i))), bvInt(int64(s[i]), 8)))
 		}
-		fs = append(fs, app("bvult", c64(0), ref), app("bvult", ref, symSafe("$alloc")+"@0"))
+		fs = append(fs, app("bvuge", ref, strBase), app("bvult", ref, bvLit(bigPow2(63), 64)))
 		e.keySortOf("$alloc", bv64)
 		e.declare(symSafe("$alloc")+"@0", bv64)
 		e.decl = append(e.decl, "(assert "+and(fs...)+")")
@@ -686,6 +686,9 @@ func (e *Enc) convert(fr *Frame, x *ssa.Convert, st *State, reach string) Val {
 // copyRegion models string<->[]byte conversion: fresh region holding the same bytes.
 func (e *Enc) copyRegion(st *State, reach string, a Val, to types.Type) Val {
 	r := e.newRef(st)
+	if isString(to) {
+		r = e.define("sref", bv64, app("bvor", r, strBase)) // string storage: see wfAssume
+	}
 	m := e.get(st, "M|uint8", BV(8))
 	// new region content: shifted view of the old region (lambda-free: use an uninterpreted inner array with a quantified link)
 	inner := e.fresh("cpy", ArrS(BV(8)))
